@@ -81,6 +81,7 @@ class Tracer:
         self.E = None
         self.fired = None
         self.sigint_fallback = False
+        self.real_only = False   # mech 'sigint' only: do not raise KeyboardInterrupt ourselves if the signal did not
         self.site_list = []      # sid -> (relfile, function, lineno)
         self.sites = []          # per event: sid (| SPAN_BIT when inside _fill/action)
         self.nact_changes = []   # (event number, len(actions)) whenever it changed
@@ -130,6 +131,9 @@ class Tracer:
             signal.raise_signal(signal.SIGINT)
             for _ in range(50):     # eval-breaker checks happen on backward jumps
                 pass
+            if self.real_only:
+                # the program under test decides what SIGINT does (it may have changed the disposition): no stand-in
+                return
             self.sigint_fallback = True
         raise KeyboardInterrupt()
 
@@ -137,6 +141,7 @@ class Tracer:
         "a scheduled event was reached: fire (single mode) or fork-and-fire (sweep mode); returns the next k"
         if self.sweep is None:
             self._fire(frame, n)
+            return -1           # only reached in real_only mode when the signal did not raise
         import pickle       # pylint: disable=import-outside-toplevel
         for (mech, payload) in self.sweep[n]:
             r, w = os.pipe()
